@@ -141,6 +141,35 @@ RULES = {
     'CCdown': {'smarts': '[C:1]=[C:2]>>[C:1][C:2]', 'fn': _cc_order(2, 1),
                'ring': None},
 }
+def _cc_any_down(atoms, bonds):
+    # 'decrease bond order' on a C-C bond of any order; order 0 = no bond
+    out = []
+    for (i, j), o in bonds.items():
+        if atoms[i][0] == 'C' and atoms[j][0] == 'C':
+            b = dict(bonds)
+            if o == 1:
+                del b[(i, j)]
+                out.append(components(list(atoms), b))
+            else:
+                b[(i, j)] = o - 1
+                out.append([(list(atoms), b)])
+    return out
+
+
+RULES['CCup']['ring'] = (
+    'rule CCup{ reactant r1{ C? labeled c1 {has >0 radical electrons} '
+    'C? labeled c2 single bond to c1 {has >0 radical electrons} } '
+    'increase bond order (c1, c2) decrease number of radical (c1) decrease '
+    'number of radical (c2) }')
+RULES['CCdown']['ring'] = (
+    'rule CCdown{ reactant r1{ C? labeled c1 C? labeled c2 double bond to c1 '
+    '} decrease bond order (c1, c2) increase number of radical (c1) increase '
+    'number of radical (c2) }')
+RULES['CCanydown'] = {
+    'smarts': None, 'fn': _cc_any_down,
+    'ring': 'rule CCanydown{ reactant r1{ C? labeled c1 C? labeled c2 any '
+            'bond to c1 } decrease bond order (c1, c2) increase number of '
+            'radical (c1) increase number of radical (c2) }'}
 RULE_NAMES = sorted(RULES)
 
 
